@@ -117,9 +117,24 @@ def muxEnv (c : Bool) : BEnv → BEnv → BEnv
 /-- leaving a block: the bindings made inside are dropped -/
 def restoreB (outer inner : BEnv) : BEnv := inner.drop (inner.length - outer.length)
 
-def isIntLit : Expr → Bool
-  | .int _ _ => true
-  | _ => false
+/-- a number literal that the compiler multiplies by repeated addition: `n ≠ 0` and `|n|` below the width of its
+type. `(is negative, |n|, type)` -/
+def litFactor : Expr → Option (Bool × Nat × IntTy)
+  | .int n k => if n ≠ 0 ∧ n.natAbs < k.bits then some (decide (n < 0), n.natAbs, k) else none
+  | _ => none
+
+/-- `x * n` for such a literal: the other operand (bits `y`, panic `p`, variables `env`) is compiled once and added
+`n` times, every addition checked. A negative literal (the sum is negated afterwards) is outside this model. -/
+def litMul (neg : Bool) (n : Nat) (k : IntTy) (ty : Ty) (other : Option (VTy × List Bool × P × BEnv)) :
+    Option (VTy × List Bool × P × BEnv) :=
+  if neg then none else
+  match other with
+  | some (.s (.int k'), y, p, env) =>
+    if k' = k ∧ STy.ofTy ty = some (.int k) then
+      let r := Arith.constMul y k.signed n false
+      some (.s (.int k), r.1, seqP p (if r.2 then some .overflow else none), env)
+    else none
+  | _ => none
 
 mutual
 /-- type, bits, panic (the first one raised inside `e`, if any) and variables after an expression -/
@@ -191,10 +206,13 @@ def bitExpr (benv : BEnv) : Expr → Option (VTy × List Bool × P × BEnv)
         | _ => none
       | _ => none
     | _ => none
-  /- the strict operators. A multiplication with a number literal as operand is compiled differently (repeated
-  addition for small literals, `Arith.constMul`): it is outside this model -/
+  /- the strict operators. A multiplication with a small number literal as operand is compiled as repeated
+  addition of the other operand (the left operand is looked at first) -/
   | .bin op ty a b =>
-    if op = .mul ∧ (isIntLit a || isIntLit b) = true then none else
+    match (if op = .mul then litFactor a else none), (if op = .mul then litFactor b else none) with
+    | some (neg, n, k), _ => litMul neg n k ty (bitExpr benv b)
+    | none, some (neg, n, k) => litMul neg n k ty (bitExpr benv a)
+    | none, none =>
     match STy.ofTy ty with
     | none => none
     | some t =>
